@@ -33,6 +33,36 @@ CLAIMED = {
               "outer/right targets is the total; real cumsum calls, diff(cumsum) round trips, two-order cumsums and "
               "cumint/integrate pairs with non-uniform metrics are validated by the TLA+ trace specification."),
         ref="4 C09, 3.1", technique="TLA+ spec (Stencil) model-checked with TLC + TLC trace validation of real calls"),
+    "C03": dict(
+        text=("TLC exhausts all oriented decompositions of a 2x2 block domain (16384, each direction open or periodic, an "
+              "element of D4 per face; quick: 2x1) and proves that, whenever the junctions are expressible, the documented "
+              "link rule yields exactly the face's window of the undivided domain, that derived tables are reciprocal and "
+              "that linked faces see each other symmetrically; real Grid.diff/interp/min/max results on random expressible "
+              "decompositions (1x1..3x2, N 2..3, face dim anywhere) are recomputed by the TLA+ trace specification from the "
+              "orientations alone (the link table given to xgcm is re-derived and compared, never used as the oracle)."),
+        ref="4 C03, 3.3", technique="TLA+ spec (FaceTopology) model-checked with TLC + TLC trace validation of real calls on oriented decompositions"),
+    "C04": dict(
+        text=("Same topology model as C03. Real diff/interp of one C-grid component along its own axis with "
+              "other_component, on rotated (non-reversed) decompositions with left- or right-staggered components, are "
+              "validated by the TLA+ trace specification: the value beyond the array end must be what the neighbouring face "
+              "stores for the shared edge (same or partner component, sign of the change of direction), found from the "
+              "orientations; on grids without face connections the vector form must equal the scalar form, which is itself "
+              "validated against the geometric stencil of C01."),
+        ref="4 C04, 3.3", technique="TLA+ spec (FaceTopology) + TLC trace validation of real vector calls"),
+    "C05": dict(
+        text=("The halo rule (depth k from the linked edge, same or mirrored along-edge position, partner and sign for "
+              "vectors) is model-checked against the global-window semantics on all 2x2 decompositions; every cell of real "
+              "xgcm.padding.pad outputs that lies in the halo of at most one axis is recomputed by the TLA+ trace "
+              "specification for planar tables and random reciprocal pairings over 2-6 faces covering all 8 link kinds, "
+              "scalar and vector, asymmetric widths 0..min(3,N), every rule on open edges, a third unlinked axis."),
+        ref="4 C05, 3.3", technique="TLA+ spec (FaceTopology: link rule + per-face assembly) + TLC trace validation of real pad calls"),
+    "C17": dict(
+        text=("TLC enumerates all 625 two-face one-axis tables as a state machine of single-slot edits and shows the "
+              "code-shaped neighbour check accepts exactly the reciprocal ones; every one of those 625 tables plus all "
+              "single and sampled double edits of consistent tables, random consistent tables up to 6 faces, two face "
+              "dimensions and a missing face dimension are given to the real constructor and the TLA+ trace specification "
+              "requires constructed <=> reciprocal over existing faces/axes."),
+        ref="4 C17, 3.3", technique="TLA+ predicate Reciprocal model-checked with TLC + TLC trace validation of real constructor outcomes"),
 }
 
 PENDING_REASON = "check not built yet in this session (planned; see DESIGN.md section 9 build order)"
